@@ -806,7 +806,93 @@ Definition regression_probes : list probe := [
     "true,true,false"
 ].
 
-Definition all_probes : list probe := (probes ++ ext_probes ++ kind_probes ++ regression_probes)%list.
+(* The intrinsics the runtime keeps PRIVATE pointers to (eval, the prototypes used for
+   literals and for the errors the interpreter raises itself) and the function objects a
+   program creates in every way.  A shape dump of the global object cannot see whether these
+   private pointers designate the configuration's own objects, so each is probed behaviourally,
+   in every configuration (fresh, underscore, Copy(), copy of a copy, ...):
+   - eval called by name is a DIRECT eval (15.1.2.1.1, 10.4.2: sees the caller's locals, its var
+     declarations are local), through another name it is indirect (global scope);
+     Function() bodies have global scope (15.3.2.1); parseInt is not parseFloat;
+   - an error RAISED BY THE INTERPRETER (ReferenceError 8.7.1/8.7.2, TypeError 11.2.3/9.9/11.2.2/
+     11.8.7, RangeError 15.4.2.2/15.7.4.5/15.4.5.1/15.7.4.2, SyntaxError 15.1.2.1/15.3.2.1/
+     15.10.4.1/15.12.2, URIError 15.1.3) has the matching constructor's prototype object,
+     [[Class]] "Error", name and constructor link (15.11.7); constructed ones likewise;
+   - literals, wrappers of primitives and the arrays/objects/functions that built-ins return
+     inherit from the configuration's own Object/Array/Function/RegExp/... prototypes;
+   - 13.2 / 15.3.2.1 / 15.3.4.5 / 11.1.5: every function object made by a declaration, an
+     expression, Function(), new Function(), bind or a get/set in an object literal has an OWN
+     length = its parameter count, {writable, enumerable, configurable} all false (0..3
+     parameters), and (except bound functions) an own prototype {w, !e, !c} whose constructor
+     {!e} points back. *)
+Definition intrinsic_probes : list probe := [
+  P "intr:eval.direct"
+    "(function(){var hidden=42;var r=[eval('hidden')];eval('var declared=7');r.push(declared,typeof this.declared);var g=eval,t;try{g('hidden');t='visible'}catch(e){t=e instanceof ReferenceError}r.push(t,g('typeof hidden'),g('this')===this,(0,eval)('typeof hidden'));return r.join()})()"
+    "42,7,undefined,true,undefined,true,undefined";
+  P "intr:eval.nested"
+    "(function(a){function inner(b){return eval('a+b')}return inner(2)})(40)"
+    "42";
+  P "intr:eval.completion"
+    "(function(){return [eval('1;2;3'),eval('var q=1; 7'),eval(5),String(eval('')),typeof eval('(function(){})')].join()})()"
+    "3,7,5,undefined,function";
+  P "intr:Function.scope"
+    "(function(){var hidden=1;return [Function('return typeof hidden')(),new Function('a','b','return a+b')(1,2),Function('return this')()===this,Function('a,b, c','return a+b+c')(2,3,4)].join()})()"
+    "undefined,3,true,9";
+  P "intr:parseInt.vs.parseFloat"
+    "[parseInt('1.9e1'),parseFloat('1.9e1'),parseInt('0x10'),parseFloat('0x10'),parseInt('  -7.5'),parseFloat('  -7.5'),parseInt('101',2),parseInt('.5')].join()"
+    "1,19,16,0,-7,-7.5,5,NaN";
+  P "intr:raised.ReferenceError"
+    "[(function(f,C){try{f()}catch(e){return [Object.getPrototypeOf(e)===C.prototype,e instanceof C,e.constructor===C,e.name,Object.prototype.toString.call(e),e instanceof Error,String(e).indexOf(C.prototype.name)===0].join()}return 'no throw'})(function(){undeclaredName},ReferenceError),(function(f,C){try{f()}catch(e){return [Object.getPrototypeOf(e)===C.prototype,e instanceof C,e.constructor===C,e.name,Object.prototype.toString.call(e),e instanceof Error,String(e).indexOf(C.prototype.name)===0].join()}return 'no throw'})(function(){undeclaredName.abc=1},ReferenceError),(function(f,C){try{f()}catch(e){return [Object.getPrototypeOf(e)===C.prototype,e instanceof C,e.constructor===C,e.name,Object.prototype.toString.call(e),e instanceof Error,String(e).indexOf(C.prototype.name)===0].join()}return 'no throw'})(function(){typeof undeclaredName.x},ReferenceError)].join('/')"
+    "true,true,true,ReferenceError,[object Error],true,true/true,true,true,ReferenceError,[object Error],true,true/true,true,true,ReferenceError,[object Error],true,true";
+  P "intr:raised.TypeError"
+    "[(function(f,C){try{f()}catch(e){return [Object.getPrototypeOf(e)===C.prototype,e instanceof C,e.constructor===C,e.name,Object.prototype.toString.call(e),e instanceof Error,String(e).indexOf(C.prototype.name)===0].join()}return 'no throw'})(function(){undefined()},TypeError),(function(f,C){try{f()}catch(e){return [Object.getPrototypeOf(e)===C.prototype,e instanceof C,e.constructor===C,e.name,Object.prototype.toString.call(e),e instanceof Error,String(e).indexOf(C.prototype.name)===0].join()}return 'no throw'})(function(){null.x},TypeError),(function(f,C){try{f()}catch(e){return [Object.getPrototypeOf(e)===C.prototype,e instanceof C,e.constructor===C,e.name,Object.prototype.toString.call(e),e instanceof Error,String(e).indexOf(C.prototype.name)===0].join()}return 'no throw'})(function(){new 5},TypeError),(function(f,C){try{f()}catch(e){return [Object.getPrototypeOf(e)===C.prototype,e instanceof C,e.constructor===C,e.name,Object.prototype.toString.call(e),e instanceof Error,String(e).indexOf(C.prototype.name)===0].join()}return 'no throw'})(function(){({}).x.y},TypeError),(function(f,C){try{f()}catch(e){return [Object.getPrototypeOf(e)===C.prototype,e instanceof C,e.constructor===C,e.name,Object.prototype.toString.call(e),e instanceof Error,String(e).indexOf(C.prototype.name)===0].join()}return 'no throw'})(function(){1 in 2},TypeError),(function(f,C){try{f()}catch(e){return [Object.getPrototypeOf(e)===C.prototype,e instanceof C,e.constructor===C,e.name,Object.prototype.toString.call(e),e instanceof Error,String(e).indexOf(C.prototype.name)===0].join()}return 'no throw'})(function(){Object.defineProperty(1,'x',{})},TypeError)].join('/')"
+    "true,true,true,TypeError,[object Error],true,true/true,true,true,TypeError,[object Error],true,true/true,true,true,TypeError,[object Error],true,true/true,true,true,TypeError,[object Error],true,true/true,true,true,TypeError,[object Error],true,true/true,true,true,TypeError,[object Error],true,true";
+  P "intr:raised.RangeError"
+    "[(function(f,C){try{f()}catch(e){return [Object.getPrototypeOf(e)===C.prototype,e instanceof C,e.constructor===C,e.name,Object.prototype.toString.call(e),e instanceof Error,String(e).indexOf(C.prototype.name)===0].join()}return 'no throw'})(function(){new Array(-1)},RangeError),(function(f,C){try{f()}catch(e){return [Object.getPrototypeOf(e)===C.prototype,e instanceof C,e.constructor===C,e.name,Object.prototype.toString.call(e),e instanceof Error,String(e).indexOf(C.prototype.name)===0].join()}return 'no throw'})(function(){(1).toFixed(101)},RangeError),(function(f,C){try{f()}catch(e){return [Object.getPrototypeOf(e)===C.prototype,e instanceof C,e.constructor===C,e.name,Object.prototype.toString.call(e),e instanceof Error,String(e).indexOf(C.prototype.name)===0].join()}return 'no throw'})(function(){[].length=-1},RangeError),(function(f,C){try{f()}catch(e){return [Object.getPrototypeOf(e)===C.prototype,e instanceof C,e.constructor===C,e.name,Object.prototype.toString.call(e),e instanceof Error,String(e).indexOf(C.prototype.name)===0].join()}return 'no throw'})(function(){(1).toString(99)},RangeError)].join('/')"
+    "true,true,true,RangeError,[object Error],true,true/true,true,true,RangeError,[object Error],true,true/true,true,true,RangeError,[object Error],true,true/true,true,true,RangeError,[object Error],true,true";
+  P "intr:raised.SyntaxError"
+    "[(function(f,C){try{f()}catch(e){return [Object.getPrototypeOf(e)===C.prototype,e instanceof C,e.constructor===C,e.name,Object.prototype.toString.call(e),e instanceof Error,String(e).indexOf(C.prototype.name)===0].join()}return 'no throw'})(function(){eval('var 1x')},SyntaxError),(function(f,C){try{f()}catch(e){return [Object.getPrototypeOf(e)===C.prototype,e instanceof C,e.constructor===C,e.name,Object.prototype.toString.call(e),e instanceof Error,String(e).indexOf(C.prototype.name)===0].join()}return 'no throw'})(function(){new Function('{')},SyntaxError),(function(f,C){try{f()}catch(e){return [Object.getPrototypeOf(e)===C.prototype,e instanceof C,e.constructor===C,e.name,Object.prototype.toString.call(e),e instanceof Error,String(e).indexOf(C.prototype.name)===0].join()}return 'no throw'})(function(){new RegExp('(')},SyntaxError),(function(f,C){try{f()}catch(e){return [Object.getPrototypeOf(e)===C.prototype,e instanceof C,e.constructor===C,e.name,Object.prototype.toString.call(e),e instanceof Error,String(e).indexOf(C.prototype.name)===0].join()}return 'no throw'})(function(){JSON.parse('{')},SyntaxError)].join('/')"
+    "true,true,true,SyntaxError,[object Error],true,true/true,true,true,SyntaxError,[object Error],true,true/true,true,true,SyntaxError,[object Error],true,true/true,true,true,SyntaxError,[object Error],true,true";
+  P "intr:raised.URIError"
+    "[(function(f,C){try{f()}catch(e){return [Object.getPrototypeOf(e)===C.prototype,e instanceof C,e.constructor===C,e.name,Object.prototype.toString.call(e),e instanceof Error,String(e).indexOf(C.prototype.name)===0].join()}return 'no throw'})(function(){decodeURI('%')},URIError),(function(f,C){try{f()}catch(e){return [Object.getPrototypeOf(e)===C.prototype,e instanceof C,e.constructor===C,e.name,Object.prototype.toString.call(e),e instanceof Error,String(e).indexOf(C.prototype.name)===0].join()}return 'no throw'})(function(){decodeURIComponent('%E0%A4%A')},URIError),(function(f,C){try{f()}catch(e){return [Object.getPrototypeOf(e)===C.prototype,e instanceof C,e.constructor===C,e.name,Object.prototype.toString.call(e),e instanceof Error,String(e).indexOf(C.prototype.name)===0].join()}return 'no throw'})(function(){encodeURI(String.fromCharCode(0xD800))},URIError)].join('/')"
+    "true,true,true,URIError,[object Error],true,true/true,true,true,URIError,[object Error],true,true/true,true,true,URIError,[object Error],true,true";
+  P "intr:constructed.errors"
+    "[Error,EvalError,RangeError,ReferenceError,SyntaxError,TypeError,URIError].map(function(C){var a=new C('m'),b=C('m');return [Object.getPrototypeOf(a)===C.prototype,Object.getPrototypeOf(b)===C.prototype,a.constructor===C,a.name===C.prototype.name,Object.prototype.toString.call(b),a.message,a instanceof Error].join('')}).join()"
+    "truetruetruetrue[object Error]mtrue,truetruetruetrue[object Error]mtrue,truetruetruetrue[object Error]mtrue,truetruetruetrue[object Error]mtrue,truetruetruetrue[object Error]mtrue,truetruetruetrue[object Error]mtrue,truetruetruetrue[object Error]mtrue";
+  P "intr:literals"
+    "[Object.getPrototypeOf({})===Object.prototype,Object.getPrototypeOf([])===Array.prototype,[] instanceof Array,Object.getPrototypeOf(function(){})===Function.prototype,(function(){}) instanceof Function,Object.getPrototypeOf(/a/)===RegExp.prototype,/a/ instanceof RegExp,({}).constructor===Object,[].constructor===Array,(function(){}).constructor===Function,/a/.constructor===RegExp,Object.getPrototypeOf((function(){}).prototype)===Object.prototype,Object.getPrototypeOf((function(){return arguments})())===Object.prototype,Object.getPrototypeOf({get x(){return 1}})===Object.prototype].join()"
+    "true,true,true,true,true,true,true,true,true,true,true,true,true,true";
+  P "intr:primitives"
+    "['a'.charAt===String.prototype.charAt,(1).toFixed===Number.prototype.toFixed,true.valueOf===Boolean.prototype.valueOf,Object.getPrototypeOf(Object('s'))===String.prototype,Object.getPrototypeOf(Object(1))===Number.prototype,Object.getPrototypeOf(Object(true))===Boolean.prototype,Object.getPrototypeOf(new Date(0))===Date.prototype,Object.getPrototypeOf(new String('s'))===String.prototype,(function(){return Object.getPrototypeOf(this)}).call('s')===String.prototype,(function(){return Object.getPrototypeOf(this)}).call(1)===Number.prototype].join()"
+    "true,true,true,true,true,true,true,true,true,true";
+  P "intr:results"
+    "[[1].map(function(x){return x}),[1].filter(function(){return true}),[1].concat(2),[1,2].slice(1),[1,2,3].splice(1,1),Object.keys({a:1}),Object.getOwnPropertyNames({a:1}),'a,b'.split(','),'aa'.match(/a/g),/a/.exec('a'),JSON.parse('[1]'),Array(2),new Array(1,2),Array.prototype.concat.call(1)].map(function(r){return Object.getPrototypeOf(r)===Array.prototype&&Array.isArray(r)}).join()+'/'+[Object.getOwnPropertyDescriptor({a:1},'a'),JSON.parse('{}'),Object.create(Object.prototype),new Object,Object(null),Object.defineProperties({},{})].map(function(r){return Object.getPrototypeOf(r)===Object.prototype}).join()+'/'+[(function(){}).bind(null),Function(''),new Function(''),Function.prototype.bind.call(Math.max,null),Object.getOwnPropertyDescriptor({get x(){return 1}},'x').get].map(function(r){return Object.getPrototypeOf(r)===Function.prototype}).join()"
+    "true,true,true,true,true,true,true,true,true,true,true,true,true,true/true,true,true,true,true,true/true,true,true,true,true";
+  P "fn:declaration"
+    "(function(){function d0(){}function d1(a){}function d2(a,b){}function d3(a,b,c){}return [d0,d1,d2,d3].map((function(f){var d=Object.getOwnPropertyDescriptor(f,'length'),p=Object.getOwnPropertyDescriptor(f,'prototype');return (d?[d.value,d.writable,d.enumerable,d.configurable].join(''):'none')+'/'+(p?[typeof p.value,p.writable,p.enumerable,p.configurable,p.value.constructor===f,Object.getOwnPropertyDescriptor(p.value,'constructor').enumerable].join(''):'none')})).join()})()"
+    "0falsefalsefalse/objecttruefalsefalsetruefalse,1falsefalsefalse/objecttruefalsefalsetruefalse,2falsefalsefalse/objecttruefalsefalsetruefalse,3falsefalsefalse/objecttruefalsefalsetruefalse";
+  P "fn:expression"
+    "[function(){},function(a){},function(a,b){},function n3(a,b,c){}].map((function(f){var d=Object.getOwnPropertyDescriptor(f,'length'),p=Object.getOwnPropertyDescriptor(f,'prototype');return (d?[d.value,d.writable,d.enumerable,d.configurable].join(''):'none')+'/'+(p?[typeof p.value,p.writable,p.enumerable,p.configurable,p.value.constructor===f,Object.getOwnPropertyDescriptor(p.value,'constructor').enumerable].join(''):'none')})).join()"
+    "0falsefalsefalse/objecttruefalsefalsetruefalse,1falsefalsefalse/objecttruefalsefalsetruefalse,2falsefalsefalse/objecttruefalsefalsetruefalse,3falsefalsefalse/objecttruefalsefalsetruefalse";
+  P "fn:Function"
+    "[Function(),Function('return 1'),Function('a',''),Function('a','b',''),Function('a','b,c','')].map((function(f){var d=Object.getOwnPropertyDescriptor(f,'length'),p=Object.getOwnPropertyDescriptor(f,'prototype');return (d?[d.value,d.writable,d.enumerable,d.configurable].join(''):'none')+'/'+(p?[typeof p.value,p.writable,p.enumerable,p.configurable,p.value.constructor===f,Object.getOwnPropertyDescriptor(p.value,'constructor').enumerable].join(''):'none')})).join()"
+    "0falsefalsefalse/objecttruefalsefalsetruefalse,0falsefalsefalse/objecttruefalsefalsetruefalse,1falsefalsefalse/objecttruefalsefalsetruefalse,2falsefalsefalse/objecttruefalsefalsetruefalse,3falsefalsefalse/objecttruefalsefalsetruefalse";
+  P "fn:newFunction"
+    "[new Function(),new Function('return 1'),new Function('a',''),new Function('a,b',''),new Function('a','b','c','')].map((function(f){var d=Object.getOwnPropertyDescriptor(f,'length'),p=Object.getOwnPropertyDescriptor(f,'prototype');return (d?[d.value,d.writable,d.enumerable,d.configurable].join(''):'none')+'/'+(p?[typeof p.value,p.writable,p.enumerable,p.configurable,p.value.constructor===f,Object.getOwnPropertyDescriptor(p.value,'constructor').enumerable].join(''):'none')})).join()"
+    "0falsefalsefalse/objecttruefalsefalsetruefalse,0falsefalsefalse/objecttruefalsefalsetruefalse,1falsefalsefalse/objecttruefalsefalsetruefalse,2falsefalsefalse/objecttruefalsefalsetruefalse,3falsefalsefalse/objecttruefalsefalsetruefalse";
+  P "fn:bind"
+    "(function(){function t(a,b,c){}return [t.bind(null),t.bind(null,1),t.bind(null,1,2),t.bind(null,1,2,3),t.bind(null,1,2,3,4),(function(){}).bind(null),Math.max.bind(null),parseInt.bind(null,1,2,3)].map((function(f){var d=Object.getOwnPropertyDescriptor(f,'length');return d?[d.value,d.writable,d.enumerable,d.configurable].join(''):'none'})).join()})()"
+    "3falsefalsefalse,2falsefalsefalse,1falsefalsefalse,0falsefalsefalse,0falsefalsefalse,0falsefalsefalse,2falsefalsefalse,0falsefalsefalse";
+  P "fn:accessors"
+    "(function(){var o={get x(){return 1},set x(v){},get y(){return 2},set z(v){}};var dx=Object.getOwnPropertyDescriptor(o,'x'),dy=Object.getOwnPropertyDescriptor(o,'y'),dz=Object.getOwnPropertyDescriptor(o,'z');var p=Object.defineProperty({},'w',{get:function(){return 1},set:function(a,b){}});var dp=Object.getOwnPropertyDescriptor(p,'w');return [dx.get,dx.set,dy.get,dz.set,dp.get,dp.set].map((function(f){var d=Object.getOwnPropertyDescriptor(f,'length');return d?[d.value,d.writable,d.enumerable,d.configurable].join(''):'none'})).join()+'/'+[dy.set,dz.get].join()})()"
+    "0falsefalsefalse,1falsefalsefalse,0falsefalsefalse,1falsefalsefalse,0falsefalsefalse,2falsefalsefalse/,";
+  P "fn:name.and.hasOwn"
+    "(function(){function d0(){}var fs=[d0,function(){},Function(),new Function('return 1'),(function(){}).bind(null),Object.getOwnPropertyDescriptor({get x(){return 1}},'x').get];return fs.map(function(f){return [f.hasOwnProperty('length'),f.length,delete f.length,f.hasOwnProperty('length'),Object.getOwnPropertyNames(f).indexOf('length')>=0].join('')}).join()})()"
+    "true0falsetruetrue,true0falsetruetrue,true0falsetruetrue,true0falsetruetrue,true0falsetruetrue,true0falsetruetrue"
+].
+
+Definition all_probes : list probe :=
+  (probes ++ ext_probes ++ kind_probes ++ regression_probes ++ intrinsic_probes)%list.
 
 (* the standard objects that must have a kind probe *)
 Definition kind_required : list string :=
